@@ -22,6 +22,7 @@ void on_rep(void *a, size_t bytes, int) { ((ReadOut *)a)->reports++; ((ReadOut *
 
 ReadOut read_file_records(const string &path) {
   ReadOut r;
+  sim::budget_reset();
   int rc = lf_read(path.c_str(), 0, on_rec, on_rep, &r);
   if (rc != 0) violation("C15", "read_open_failed", "cannot open %s for reading: %s", path.c_str(), rcname(rc));
   count("reads");
@@ -55,7 +56,7 @@ Plan gen_logfmt(uint64_t seed, const string &prop) {
     else o.len = (uint32_t)r.range(20000, 120000);
     p.ops.push_back(o);
   }
-  p.seti("cuts", 60); p.seti("damages", 60);
+  p.seti("cuts", g_thorough ? 600 : 60); p.seti("damages", g_thorough ? 400 : 60);
   p.seti("noise", r.chance(0.3));
   p.seti("sync_each", r.chance(0.3));
   return p;
